@@ -20,7 +20,9 @@ import (
 	"os"
 	"testing"
 
+	"verif/internal/gen"
 	"verif/internal/mon"
+	"verif/internal/prng"
 	"verif/internal/vectors"
 )
 
@@ -219,5 +221,86 @@ func FuzzC17Text(f *testing.F) {
 			text = body + fmt.Sprintf("%x", b[:4])
 		}
 		fuzzJudge(t, "C17", "corrupt", &c17Text{Text: text, Class: "coverage-guided"})
+	})
+}
+
+// ---------------------------------------------------------------- C02 / C03 / C16
+
+// shapeFromBlob carves a transaction shape out of a byte stream field by
+// field (a mutation of one byte changes one field; a stream that ends early
+// yields zeros), so that every input of the engine is a transaction.
+func shapeFromBlob(blob []byte, nIns, nOuts uint8, version, locktime uint32) *gen.Shape {
+	take := func(n int) []byte {
+		out := make([]byte, n)
+		k := copy(out, blob)
+		blob = blob[k:]
+		return out
+	}
+	u32 := func() uint32 {
+		b := take(4)
+		return uint32(b[0]) | uint32(b[1])<<8 | uint32(b[2])<<16 | uint32(b[3])<<24
+	}
+	script := func() []byte {
+		l := int(take(1)[0])
+		switch {
+		case l >= 0xf8: // the length-prefix boundaries
+			l = []int{252, 253, 254, 300, 0, 1, 75, 76}[l-0xf8]
+		case l > 110:
+			l %= 40
+		}
+		return take(l)
+	}
+	s := &gen.Shape{Version: version, LockTime: locktime}
+	for i := 0; i < int(nIns%7); i++ {
+		in := gen.In{TxID: take(32), Vout: u32(), Seq: u32(), Unlock: script(), PrevScript: script()}
+		v := take(8)
+		for k := 0; k < 8; k++ {
+			in.PrevSats |= uint64(v[k]) << (8 * k)
+		}
+		in.PrevSats %= 2_100_000_000_000_001
+		s.Ins = append(s.Ins, in)
+	}
+	for i := 0; i < int(nOuts%7); i++ {
+		var o gen.Out
+		v := take(8)
+		for k := 0; k < 8; k++ {
+			o.Sats |= uint64(v[k]) << (8 * k)
+		}
+		o.Sats %= 2_100_000_000_000_001
+		o.Script = script()
+		s.Outs = append(s.Outs, o)
+	}
+	if s.Ambiguous() {
+		return nil
+	}
+	return s
+}
+
+func sighashSeeds(f *testing.F) {
+	r := prng.New(1, "fuzz-seeds", 0)
+	for i := 0; i < 24; i++ {
+		f.Add(r.Bytes(40+r.Intn(600)), uint8(1+i%4), uint8(i%4), uint32(1+i%2), uint32(i), uint8(i), uint8(1+i%3)|uint8(i%2)<<7)
+	}
+}
+
+func FuzzC02Sighash(f *testing.F) {
+	sighashSeeds(f)
+	f.Fuzz(func(t *testing.T, blob []byte, nIns, nOuts uint8, version, locktime uint32, idx, hashType uint8) {
+		s := shapeFromBlob(blob, nIns, nOuts, version, locktime)
+		if s == nil || len(blob) > 8000 {
+			t.Skip()
+		}
+		fuzzJudge(t, "C02", "sighash", &shCase{Shape: *s, Idx: uint32(idx) % uint32(len(s.Ins)+1), HashType: hashType | 0x40})
+	})
+}
+
+func FuzzC03Sighash(f *testing.F) {
+	sighashSeeds(f)
+	f.Fuzz(func(t *testing.T, blob []byte, nIns, nOuts uint8, version, locktime uint32, idx, hashType uint8) {
+		s := shapeFromBlob(blob, nIns, nOuts, version, locktime)
+		if s == nil || len(blob) > 8000 {
+			t.Skip()
+		}
+		fuzzJudge(t, "C03", "sighash", &shCase{Shape: *s, Idx: uint32(idx) % uint32(len(s.Ins)+1), HashType: hashType &^ 0x40})
 	})
 }
